@@ -29,7 +29,7 @@ def run(ctx):
     tot, samples = L.replay(ctx, files, "both", ["C03."], explore_bound=0, maxcalls=300000 if q else 600000,
                             nwalks=25 if q else 80, walklen=50 if q else 120, maxpar=8 if q else 12)
     ftot, fsamples = L.fixtures(ctx, ["C03."], nrays=300 if q else 20000, nwalks=250 if q else 6000,
-                                nprobes=0, maxpar=8 if q else 12, nshards=6 if q else 12)
+                                nprobes=0, nturns=350 if q else 12000, maxpar=8 if q else 12, nshards=6 if q else 12)
     ctx.coverage.update({
         "traces_validated_against_impl": tot["traces"] + ftot["fixtures"],
         "samples": samples + fsamples,
@@ -46,7 +46,7 @@ def run(ctx):
         "lattice": {k: tot[k] for k in ("traces", "calls", "inits", "judged", "unjudged", "states", "exhaustive_worlds",
                                          "truncated_worlds", "per_op", "other_clauses")},
         "lattice_worlds": len(files),
-        "fixtures": {k: ftot[k] for k in ("fixtures", "records", "oracle_queries", "discarded", "facts", "skipped", "stat",
+        "fixtures": {k: ftot[k] for k in ("fixtures", "records", "oracle_queries", "discarded", "normals", "facts", "skipped", "stat",
                                            "dev", "other_clauses")},
     })
     if st:
